@@ -5,5 +5,5 @@ CONSTANTS
   MaxPat = @MaxPat@
   MaxStr = @MaxStr@
   Deviations = @Deviations@
-INVARIANTS TypeOK Agree @Emit@
+INVARIANTS TypeOK Agree StarAbsorbs @Emit@
 CHECK_DEADLOCK FALSE
